@@ -111,7 +111,10 @@ func fileExists(name string) (bool, error) {
 }
 
 func (o *Options) populateGlobals(c *cli.Context) error {
-	if !c.IsSet("no-database") && (c.IsSet("database") || o.GlobalConfig.DbFileName == "") {
+	if c.IsSet("no-database") {
+		// no database: read an empty one instead of whatever the default file name points at
+		o.GlobalConfig.DbFileName = os.DevNull
+	} else if c.IsSet("database") || o.GlobalConfig.DbFileName == "" {
 		o.GlobalConfig.DbFileName = c.String("database")
 	}
 
